@@ -478,4 +478,4 @@ def main(ctx):
     for k, w in LW.items():
         wspecs["%s.image2sky" % k] = (pix_base, (lambda x, y, w=w: w.image2sky(x, y)))
         wspecs["%s.sky2image(find=False)" % k] = (make_sky_base(w), (lambda lon, lat, w=w: w.sky2image(lon, lat, find=False)))
-    tiled_elementwise(ctx, "long-arrays", wspecs, marks(ctx), small=lambda l: not ((not ctx.quick) and l.startswith("tan")) , small_marks=marks(ctx, small=True))
+    tiled_elementwise(ctx, "long-arrays", wspecs, marks(ctx), small=lambda l: not ((not ctx.quick) and l.startswith("tan")) , small_marks=marks(ctx, small=True), harvest=([__import__("esutil.wcsutil", fromlist=["x"])], []))
